@@ -282,13 +282,14 @@ where
                 // we use sampling without replacement in [0..m-1] so we can have each k only once as we exit loop before m iterations!
                 let k = self.permut_generator.next(&mut rng);
                 assert!(k < self.m);
-                let inserted =
+                // a slot rejecting x does not mean the following slots (visited with a larger x) will reject it too:
+                // only the comparison with the max tracker below can end the loop
+                let _inserted =
                     self.min_store
                         .update_with_maxtracker(k, &x, i, &mut self.max_tracker);
-                if !inserted {
-                    #[cfg(feature = "verif_hooks")]
+                #[cfg(feature = "verif_hooks")]
+                if !_inserted {
                     crate::verif::tick(crate::verif::Event::OrdRejected);
-                    break;
                 }
                 // x is growing, so even if last update was possible at slot k, it is possible another value of x
                 // cannot be inserted (if k was last possible index), if no update possible after preceding update, we can exit
